@@ -168,11 +168,28 @@ def _worker(args):
 _POOL = None
 
 
+def _init_worker():
+    """pool workers must never outlive the check or hold its output open: die with the parent, write nowhere"""
+    try:
+        import ctypes
+        import signal
+        ctypes.CDLL("libc.so.6", use_errno=True).prctl(1, signal.SIGKILL)      # PR_SET_PDEATHSIG
+    except Exception:
+        pass
+    try:
+        fd = os.open(os.devnull, os.O_WRONLY)
+        os.dup2(fd, 1)
+        os.dup2(fd, 2)
+        os.close(fd)
+    except Exception:
+        pass
+
+
 def pool(jobs=None):
     global _POOL
     if _POOL is None:
         jobs = jobs or int(os.environ.get("SYMX_JOBS", min(16, os.cpu_count() or 4)))
-        _POOL = cf.ProcessPoolExecutor(max_workers=jobs, mp_context=mp.get_context("fork"))
+        _POOL = cf.ProcessPoolExecutor(max_workers=jobs, mp_context=mp.get_context("fork"), initializer=_init_worker)
     return _POOL
 
 
